@@ -50,6 +50,17 @@ theorem session_eq_spec (cfg : Cfg) (hrs : 0 < cfg.recvsize) (ops : List Op)
     ((runRetry cfg ops st).1, (runRetry cfg ops st).2.view) = specRun ops st.view :=
   runRetry_ok cfg hrs ops st hdet
 
+/-- every single attempt (no retry) either raises Timeout and leaves the stream untouched, or answers
+    exactly as the whole-stream specification on what is still owed -/
+theorem attempt_timeout_or_spec (cfg : Cfg) (hrs : 0 < cfg.recvsize) (op : Op)
+    (hdet : op.deterministic = true) (st : St) :
+    ((attempt cfg op st).1 = .timeout ∧ (attempt cfg op st).2.view = st.view) ∨
+    ((attempt cfg op st).1 ≠ .timeout ∧
+      ((attempt cfg op st).1, (attempt cfg op st).2.view) = spec op st.view) := by
+  rcases attempt_ok cfg hrs op hdet st with ⟨a, b, _⟩ | ⟨a, b, _, _⟩
+  · exact Or.inl ⟨a, b⟩
+  · exact Or.inr ⟨a, b⟩
+
 /-- the statement's quantifier: any two networks that deliver the same bytes — however split into
     chunks, wherever the timeouts fall, whatever the two recvsize settings — yield the same results -/
 theorem chunk_independent (cfg₁ cfg₂ : Cfg) (h₁ : 0 < cfg₁.recvsize) (h₂ : 0 < cfg₂.recvsize)
@@ -242,6 +253,24 @@ theorem netstring_roundtrip_default (maxsize : Nat) (ps : List Bytes) (script : 
   (netstring_roundtrip ⟨Gen.DEFAULT_MAXSIZE, Gen.DEFAULT_MAXSIZE⟩ default_recvsize_pos maxsize ps []
     script hto (by simpa using hs) hall).1
 
+/-- end to end: payloads written with write_ns over a socket that takes partial sends and raises
+    timeouts (the caller flushing until done), carried by a network that re-chunks the wire
+    arbitrarily, come out of read_ns exactly as written -/
+theorem netstring_end_to_end (cfg : Cfg) (hrs : 0 < cfg.recvsize) (maxsize : Nat) (ps : List Bytes)
+    (sscript : List SEv) (rscript : List Ev) (hall : ∀ p ∈ ps, p.length ≤ maxsize)
+    (hto : nTO rscript = 0)
+    (hwire : pending rscript
+      = (flushN (sscript.length + 1) (writeMany maxsize ps (sstart sscript))).wire) :
+    (readNsMany cfg maxsize ps.length (start rscript)).1 = ps.map NsRes.ok := by
+  obtain ⟨h1, h2⟩ := writeMany_conserves maxsize ps (sstart sscript) hall
+  have h2 : (writeMany maxsize ps (sstart sscript)).script.length ≤ sscript.length := h2
+  have hd := flushN_done (sscript.length + 1) (writeMany maxsize ps (sstart sscript)) (by omega)
+  have hc := flushN_conserves (sscript.length + 1) (writeMany maxsize ps (sstart sscript))
+  rw [hd, List.append_nil, h1] at hc
+  have hw : pending rscript = (ps.map encodeNs).flatten ++ [] := by
+    rw [hwire, hc]; simp [SSt.getsendbuffer]
+  exact (netstring_roundtrip cfg hrs maxsize ps [] rscript hto hw hall).1
+
 /-! ## non-vacuity -/
 
 -- "ab\r\ncd\r\n" delivered as  "ab\r" | timeout | "\ncd" | "\r" | timeout | "\n"  with recvsize 2:
@@ -270,5 +299,8 @@ example : (srun [.send [1, 2, 3], .buffer [4], .flush] (sstart [.accept 2, .time
 example : encodeNs [58, 44, 49] = [51, 58, 58, 44, 49, 44] := by decide
 example : (readNsMany ⟨4, 4⟩ 10 2 (start ((encodeNs [58, 44, 49] ++ encodeNs []).map (fun b => Ev.chunk [b])))).1
     = [.ok [58, 44, 49], .ok []] := by decide
+
+example : (flushN 3 (writeMany 10 [[58, 44, 49], []] (sstart [.accept 2, .timeout]))).wire
+    = [51, 58, 58, 44, 49, 44, 48, 58, 44] := by decide
 
 end C12
